@@ -217,6 +217,42 @@ RefResult ref_solve(const LP& lp, long maxp) {
     r.pivots += rr.pivots;
     if (rr.status == REF_OPTIMAL) { r.dual_known = true; r.dual_infeasible = (rr.z > 0); if (r.dual_infeasible) r.ray = rr.x; }
   }
+  if (r.status == REF_OPTIMAL) {
+    // Is the class OPTIMAL robust against tolerances?  (a) feasibility: shrink every inequality; (b) boundedness: look for a
+    // recession direction with |d|_inf >= 1/2 that loses less than delta of objective.  A floating-point solver with 1e-6
+    // tolerances cannot be asked to tell such LPs from infeasible / unbounded ones, so the verdict oracles skip them.
+    const Q delta(1, 1000); int n = lp.ncols(), m = lp.nrows();
+    auto mag = [](const Q& v) -> Q { Q a = v < 0 ? Q(-v) : v; return Q(a + 1); };
+    LP t = lp; for (auto& c : t.obj) c = 0; t.offset = 0;
+    for (int j = 0; j < n; j++) {
+      bool lf = t.lo[j].finite(), uf = t.up[j].finite();
+      if (lf && uf && !(t.lo[j].v < t.up[j].v)) continue;
+      Q nl = lf ? Q(t.lo[j].v + delta * mag(t.lo[j].v)) : Q(0), nu = uf ? Q(t.up[j].v - delta * mag(t.up[j].v)) : Q(0);
+      if (lf && uf && !(nl < nu)) { nl = nu = (t.lo[j].v + t.up[j].v) / 2; }
+      if (lf) t.lo[j].v = nl; if (uf) t.up[j].v = nu;
+    }
+    for (int i = 0; i < m; i++) {
+      bool lf = t.lhs[i].finite(), uf = t.rhs[i].finite();
+      if (lf && uf && !(t.lhs[i].v < t.rhs[i].v)) continue;
+      Q nl = lf ? Q(t.lhs[i].v + delta * mag(t.lhs[i].v)) : Q(0), nu = uf ? Q(t.rhs[i].v - delta * mag(t.rhs[i].v)) : Q(0);
+      if (lf && uf && !(nl < nu)) { nl = nu = (t.lhs[i].v + t.rhs[i].v) / 2; }
+      if (lf) t.lhs[i].v = nl; if (uf) t.rhs[i].v = nu;
+    }
+    RefResult tr = solve_core(t, maxp); r.pivots += tr.pivots;
+    if (tr.status != REF_OPTIMAL) r.feas_fragile = true;
+    LP rec; rec.sense = 1; rec.obj.assign(n, Q(0)); rec.lo.resize(n); rec.up.resize(n);
+    for (int j = 0; j < n; j++) { rec.lo[j] = lp.lo[j].finite() ? Ext(Q(0)) : Ext(Q(-1)); rec.up[j] = lp.up[j].finite() ? Ext(Q(0)) : Ext(Q(1)); }
+    rec.A = lp.A; rec.lhs.resize(m); rec.rhs.resize(m);
+    for (int i = 0; i < m; i++) { rec.lhs[i] = lp.lhs[i].finite() ? Ext(Q(0)) : Ext::ninf(); rec.rhs[i] = lp.rhs[i].finite() ? Ext(Q(0)) : Ext::pinf(); }
+    std::vector<Q> crow(n); for (int j = 0; j < n; j++) crow[j] = lp.obj[j] * lp.sense;
+    rec.A.push_back(crow); rec.lhs.push_back(Ext(Q(-delta))); rec.rhs.push_back(Ext::pinf());
+    for (int j = 0; j < n && !r.bounded_fragile; j++) for (int sg = -1; sg <= 1 && !r.bounded_fragile; sg += 2) {
+      if ((sg > 0 && lp.up[j].finite()) || (sg < 0 && lp.lo[j].finite())) continue;
+      rec.obj.assign(n, Q(0)); rec.obj[j] = sg;
+      RefResult rr = solve_core(rec, maxp); r.pivots += rr.pivots;
+      if (rr.status != REF_OPTIMAL || rr.z >= Q(1, 2)) r.bounded_fragile = true;
+    }
+  }
   return r;
 }
 }  // namespace model
